@@ -196,7 +196,8 @@ impl JobManager {
         Ok(results)
     }
 
-    fn sweep_completed_jobs(&mut self) -> Vec<Job> {
+    /// Removes the jobs that have been waited for to their end from the table, and returns them.
+    pub fn sweep_completed_jobs(&mut self) -> Vec<Job> {
         let mut completed_jobs = vec![];
 
         let mut i = 0;
